@@ -73,6 +73,10 @@ func vGenTable(name string, k int, L int, spare int) FeatureSlice {
 			// quick: concrete coordinates (the aliasing shapes and residue bytes carry the quantifier)
 			if i == 0 {
 				loc = Range(0, L)
+				if spare > 0 && L >= 4 {
+					// a source written as a join with partial parts (e.g. after rotating a partial source across the origin)
+					loc = Join(PartialRange(0, 2, Partial5), PartialRange(3, L, Partial3))
+				}
 			} else {
 				loc = PartialRange(1, L-1, Partial3)
 			}
@@ -81,6 +85,9 @@ func vGenTable(name string, k int, L int, spare int) FeatureSlice {
 		}
 		if i == 0 {
 			loc = Range(0, L)
+			if spare > 0 && L >= 4 {
+				loc = Join(PartialRange(0, 2, Partial5), PartialRange(3, L, Partial3))
+			}
 		} else {
 			switch vChoice(name+string(rune('0'+i))+".shape", 3) {
 			case 0:
@@ -150,6 +157,8 @@ func vC11(op int, hostShape, guestShape, tableSpare int) {
 		out = WithFeatures(host, rep)
 	case 12:
 		out = WithFeatures(host, hff.Filter(Overlap(i, L)))
+	case 14:
+		out = Slice(host, 0, L) // the whole sequence: every Expand is by zero
 	default:
 		out = WithFeatures(host, hff.Insert(gff[0]))
 	}
@@ -176,10 +185,10 @@ func vC11(op int, hostShape, guestShape, tableSpare int) {
 	vObserve("outlen", len(out.Bytes()))
 }
 
-//verif:harness prop=C11 quick=14 thorough=14 timeout=1200
-//verif:bounds each of 14 operations (insert embed delete erase slice concat reverse rotate complement transcribe with-* repair filter sorted-insert) on a 4-residue host / 2-residue guest with symbolic bytes; aliasing shapes by choice: residues len==cap | spare capacity | sub-slice of a larger buffer (host and guest independently), feature tables with 0 or 2 spare slots; quick: concrete coordinates, index 1, length 2; thorough: all 18 aliasing combinations, second feature = symbolic range | join | complement of symbolic range, index in {0,2,4}, length in {0,1,2}; each followed by a second operation on the same arguments
+//verif:harness prop=C11 quick=15 thorough=15 timeout=1200
+//verif:bounds each of 15 operations (insert embed delete erase slice concat reverse rotate complement transcribe with-* repair filter sorted-insert full-slice); with spare table capacity the source feature is a join with partial parts on a 4-residue host / 2-residue guest with symbolic bytes; aliasing shapes by choice: residues len==cap | spare capacity | sub-slice of a larger buffer (host and guest independently), feature tables with 0 or 2 spare slots; quick: concrete coordinates, index 1, length 2; thorough: all 18 aliasing combinations, second feature = symbolic range | join | complement of symbolic range, index in {0,2,4}, length in {0,1,2}; each followed by a second operation on the same arguments
 func VH_C11_purity() {
-	op := vShard(14)
+	op := vShard(15)
 	hostShape := vChoice("hshape", 3)
 	guestShape := 0
 	spare := 0
